@@ -13,13 +13,13 @@ CLAUSES = {
     "time-shift": "shifting start, stop, forcing frames and release times by the same number of whole steps leaves every trajectory unchanged",
 }
 BOUNDS = {
-    "quick": "6x6 ROMS grid, 2 levels, currents depending on level and frame (time interpolated, concrete values), 2 release rows at symbolic depths, one IBM death at a symbolic step, records every step or every 2nd step, sparse and dense layout, EF and RK2; shift by a symbolic number of steps in [-5, 5]; Nsteps 3",
+    "quick": "6x6 ROMS grid, 3 levels, currents depending on level and frame (time interpolated, concrete values), 2 release rows at symbolic depths, one IBM death at a symbolic step, records every step or every 2nd step, sparse and dense layout, EF and RK2; shift by a symbolic number of steps in [-5, 5]; Nsteps 3",
     "thorough": "Nsteps 4, 3 rows, RK4, scalar forcing compared too",
 }
 ASSUMES = ["equality over the reals (bit-for-bit equality holds where both runs build the same operation sequence; rounding is outside the claim)"]
 OUTSIDE = "diffusion on (random draws differ between runs by design)"
 DT = 600
-L, M, N = 6, 6, 2
+L, M, N = 6, 6, 3
 
 
 def scenarios(tier):
